@@ -49,7 +49,7 @@ func fuzzReader(f *testing.F, kinds ...string) {
 	})
 }
 
-func FuzzFasta(f *testing.F) { fuzzReader(f, "fasta", "fasta-q") }
+func FuzzFasta(f *testing.F) { fuzzReader(f, append([]string{"fasta"}, FastaVariants...)...) }
 func FuzzFastq(f *testing.F) { fuzzReader(f, append([]string{"fastq"}, FastqVariants...)...) }
 func FuzzBed(f *testing.F)   { fuzzReader(f, "bed3", "bed4", "bed5", "bed6", "bed12") }
 func FuzzGff(f *testing.F)   { fuzzReader(f, "gff") }
